@@ -33,6 +33,12 @@ COMPONENTS_STUB = ["UDP network/select/clock (simulated)",
                    "BMP endpoints (sver, power, led, FPGA registers, ADC)"]
 
 # the 48-chip SpiNN-5 tile: for each row dy the range of dx on the board
+# every run in a forked child of a process that has only imported rig: the
+# controllers' contexts start from module-level defaults, and a change under
+# test that lets one controller's context leak into those defaults would
+# otherwise make a run's outcome depend on the runs before it in that worker
+ISOLATE = True
+
 BOARD_ROWS = {0: (0, 4), 1: (0, 5), 2: (0, 6), 3: (0, 7), 4: (1, 7),
               5: (2, 7), 6: (3, 7), 7: (4, 7)}
 TRIAD_ETH = [(0, 0), (4, 8), (8, 4)]
@@ -736,8 +742,10 @@ class CtxEngine(object):
             if budget[0] <= 0:
                 return
             budget[0] -= 1
-            k = t.weighted([6, 2, 3, 1, 1])
-            if k == 0:
+            k = t.weighted([6, 2, 3, 1, 1, 1])
+            if k == 5:
+                self.do_bystander()
+            elif k == 0:
                 self.do_mc_call(stack[ctl])
             elif k == 1:
                 self.do_bmp_call(stack["bmp"])
@@ -763,6 +771,31 @@ class CtxEngine(object):
         obj.update_current_context(**args)
         stack[which][-1].update(args)
         self.check_ctx(which, stack)
+
+    def do_bystander(self):
+        """Other controllers live in the same process (created with default
+        arguments, as most are): what happens to their contexts must not show
+        in the controller under test, nor the reverse."""
+        t, w = self.t, self.w
+        which = "mc" if t.draw(3) else "bmp"
+        i = t.draw(len(self.by[which]))
+        obj, model = self.by[which][i]
+        args = self.draw_ctx_args(which)
+        w.probe("bystander_controller")
+        if t.draw(3) == 0:
+            w.ops.append("bystander %s#%d: with block %r" % (which, i, args))
+            with obj(**args):
+                got = obj.get_context_arguments()
+                want = dict(model, **args)
+                if got != want:
+                    w.violate("CTX", "bystander %s context arguments inside a "
+                              "block are %r, expected %r" % (which, got, want),
+                              kind="context-arguments")
+        else:
+            w.ops.append("bystander %s#%d.update_current_context(%r)"
+                         % (which, i, args))
+            obj.update_current_context(**args)
+            model.update(args)
 
     def draw_ctx_args(self, which):
         t = self.t
@@ -810,6 +843,13 @@ class CtxEngine(object):
         if got != want:
             self.w.violate("CTX", "%s context arguments are %r, expected %r"
                            % (which, got, want), kind="context-arguments")
+        for i, (by, model) in enumerate(self.by[which]):
+            got = by.get_context_arguments()
+            if got != model:
+                self.w.violate("CTX", "context arguments of bystander %s "
+                               "controller #%d are %r, expected %r"
+                               % (which, i, got, model),
+                               kind="context-arguments")
 
     def run_block(self, stack, depth, budget):
         t, w, c = self.t, self.w, self.c
@@ -955,18 +995,36 @@ class CtxEngine(object):
             c.mcmod = rig_module("rig.machine_control.machine_controller")
             c.scp = rig_module("rig.machine_control.scp_connection")
             bmpmod = rig_module("rig.machine_control.bmp_controller")
+            # one run in four: the controller is created without an initial
+            # context (the documented default then applies)
+            mc_kw, bmp_kw = {}, {}
+            default_init = t.draw(4) == 0
+            if default_init:
+                init_ctx = {"app_id": 66}
+            else:
+                mc_kw["initial_context"] = dict(init_ctx)
             c.mc = c.mcmod.MachineController(
-                "spinn", n_tries=c.n_tries, timeout=c.timeout,
-                initial_context=dict(init_ctx))
+                "spinn", n_tries=c.n_tries, timeout=c.timeout, **mc_kw)
             hosts = dict(self.bmp_hosts)
             if list(hosts) == [(0, 0)] and t.draw(2):
                 hosts = hosts[(0, 0)]
             bctx = {"cabinet": 0, "frame": 0, "board": 0}
-            if t.draw(3) == 0:
+            if default_init:
+                pass
+            elif t.draw(3) == 0:
                 bctx = {}
+                bmp_kw["initial_context"] = {}
+            else:
+                bmp_kw["initial_context"] = dict(bctx)
             self.bc = bmpmod.BMPController(hosts, n_tries=c.n_tries,
-                                           timeout=c.timeout,
-                                           initial_context=dict(bctx))
+                                           timeout=c.timeout, **bmp_kw)
+            # bystanders: further controllers in the same process, created
+            # before and after the one under test with default arguments
+            self.by = {
+                "mc": [(c.mcmod.MachineController("spinn"), {"app_id": 66})
+                       for _ in range(1 + t.draw(2))],
+                "bmp": [(bmpmod.BMPController(hosts),
+                         {"cabinet": 0, "frame": 0, "board": 0})]}
             self.methods = self.mc_methods()
             self.chip_list = sorted(m.chips)
             # Ethernet links that are reported up but lead nowhere (cable to
